@@ -217,14 +217,36 @@ func TestPool(t *testing.T) {
 }
 
 func TestBackoffs(t *testing.T) {
-	bld := retry.NewBackoffBuilder().BaseBackoffSpec("exponential=10:1000:2").WithLimit(5).WithJitter(0.2)
-	shared, err := bld.Build()
-	if err != nil {
-		t.Fatal(err)
-	}
-	par(8, func(i int) {
-		for k := 0; k < rounds()*5; k++ {
-			shared.NextDelayMillis(1 + k%7)
+	// shared backoffs of every kind and through every construction route; fresh ones in every round, so that the first (cold) queries
+	// of a backoff are concurrent too; attempts from the first to far beyond the clamp of the exponential policy and beyond the limit
+	for r := 0; r < 1+rounds()/20; r++ {
+		var shared []retry.Backoff
+		add := func(b retry.Backoff, err error) {
+			if err != nil {
+				t.Fatal(err)
+			}
+			shared = append(shared, b)
 		}
-	})
+		add(retry.NewBackoffBuilder().BaseBackoffSpec("exponential=10:1000:2").WithLimit(5).WithJitter(0.2).Build())
+		add(retry.NewBackoffBuilder().BaseBackoffSpec("exponential=10:1000:2").WithLimit(40).WithJitterBound(-0.1, 0.3).Build())
+		add(retry.NewBackoffBuilder().BaseBackoffSpec("exponential=3:100000:1.5").Build())
+		add(retry.NewBackoffBuilder().BaseBackoffSpec("random=5:500").WithLimit(30).Build())
+		add(retry.NewBackoffBuilder().BaseBackoffSpec("fixed=7").WithJitter(0.5).Build())
+		add(retry.NewExponentialBackoff(1, 1<<40, 3))
+		add(retry.NewRandomBackoff(1, 1000))
+		add(retry.NewFixedBackoff(9))
+		if e, err := retry.NewExponentialBackoff(10, 1000, 2); err == nil {
+			add(retry.NewBackoffBuilder().BaseBackoff(e).WithLimit(25).Build())
+			add(retry.NewAttemptLimitingBackoff(e, 30))
+			add(retry.NewJitterAddingBackoff(e, -0.2, 0.2))
+			add(e, nil)
+		}
+		par(8, func(i int) {
+			for k := 0; k < 40; k++ {
+				for _, b := range shared {
+					b.NextDelayMillis(1 + (k*(i+1)+7*i)%45)
+				}
+			}
+		})
+	}
 }
